@@ -9,8 +9,8 @@ from ..core import Ctx, construct_key, norm
 from ..load import AnalysisError, Resolver, Scope, dotted, own_nodes, parent
 from ..paths import (envs_at, find_path, held_locks, must_pass, no_suspension, reach, render)
 from ..sym import (call_name, calls_in, enum_paths, find_calls, is_opaque,
-                   method_calls, subst, sym_env)
-from ..dataflow import resolve
+                   method_calls, simplify, subst, sym_env)
+from ..dataflow import resolve, unalias, leaves
 
 FILE = 'aiuti/asyncio.py'
 
@@ -71,27 +71,32 @@ class CacheRoles:
         if self.cache is None:
             # the parameter itself is used
             self.cache = self.cache_param
-        # TABLE: closure dict that the wrapper subscript-stores with a tuple that
-        # holds an asyncio.Event() value
+        # TABLE: closure dict that the wrapper subscript-stores with a tuple (or record) that
+        # holds an asyncio.Event() value - whatever local names the parts travel through
         self.table: Optional[str] = None
         self.event_var: Optional[str] = None
-        event_locals = set()
-        for n in g.nodes:
-            if n.kind == 'store_name':
-                v = n.meta.get('value')
-                if isinstance(v, ast.Call) and g.res.path(v.func) == 'asyncio.Event':
-                    event_locals.add(n.meta['name'])
+
+        def is_event_call(x: ast.AST) -> bool:
+            return isinstance(x, ast.Call) and g.res.path(x.func) == 'asyncio.Event'
+        self._is_event_call = is_event_call
         for n in g.nodes:
             if n.kind == 'store_sub':
-                base = n.ast.value  # type: ignore[union-attr]
+                base = unalias(g, n, n.ast.value)  # type: ignore[union-attr]
                 v = n.meta.get('value')
                 if isinstance(base, ast.Name) and self._is_closure(base.id) and v is not None:
-                    for x in ast.walk(v):
-                        if (isinstance(x, ast.Name) and x.id in event_locals) or (
-                                isinstance(x, ast.Call) and g.res.path(x.func) == 'asyncio.Event'):
+                    for lf in leaves(g, n, v):
+                        if isinstance(lf, ast.Tuple) and any(is_event_call(y) for el in lf.elts for y in leaves(g, n, el)):
                             self.table = base.id
-                            if isinstance(x, ast.Name):
-                                self.event_var = x.id
+        # EVENT: the local through which this activation reaches the marker's event: receiver of .set()
+        # / .wait() whose possible values are an asyncio.Event() or element 1 of a table entry
+        cands: Dict[str, int] = {}
+        for n in g.nodes:
+            if n.kind == 'call' and isinstance(n.ast.func, ast.Attribute) and n.ast.func.attr in ('set', 'wait'):
+                rcv = unalias(g, n, n.ast.func.value)
+                if isinstance(rcv, ast.Name) and self.is_event_value(n, rcv):
+                    cands[rcv.id] = cands.get(rcv.id, 0) + (2 if n.ast.func.attr == 'set' else 1)
+        if cands:
+            self.event_var = max(sorted(cands), key=lambda k: cands[k])
         missing = [k for k in ('cache', 'wrapped') if getattr(self, k) is None]
         if missing:
             raise AnalysisError(f'cache roles not found: {missing}')
@@ -140,16 +145,30 @@ class CacheRoles:
         return bs is self.impl
 
     def _base(self, n: Node) -> Optional[str]:
-        b = n.ast.value  # type: ignore[union-attr]
+        b = unalias(self.cfg, n, n.ast.value)  # type: ignore[union-attr]
         if isinstance(b, ast.Name) and self._is_closure(b.id):
             return b.id
         return None
 
     def _recv_meth(self, n: Node) -> Optional[Tuple[str, str]]:
         f = n.ast.func  # type: ignore[union-attr]
-        if isinstance(f, ast.Attribute) and isinstance(f.value, ast.Name):
-            return (f.value.id, f.attr)
+        if isinstance(f, ast.Attribute):
+            v = unalias(self.cfg, n, f.value)
+            if isinstance(v, ast.Name):
+                return (v.id, f.attr)
         return None
+
+    def is_event_value(self, n: Node, e: ast.AST) -> bool:
+        """Can *e* at *n* denote the event of an in-flight marker (a fresh asyncio.Event() or element 1 of
+        a table entry / marker tuple)?"""
+        g = self.cfg
+        for lf in leaves(g, n, e):
+            if self._is_event_call(lf):
+                return True
+            if isinstance(lf, ast.Subscript) and isinstance(lf.slice, ast.Constant) and lf.slice.value == 1:
+                if self.table is not None and any(isinstance(x, ast.Name) and x.id == self.table for x in ast.walk(lf.value)):
+                    return True
+        return False
 
     def _is_ownership_read(self, n: Node) -> bool:
         """A `TABLE.get(key)` whose value only feeds an ownership comparison (the guarded
@@ -178,7 +197,7 @@ class CacheRoles:
         for n in g.nodes:
             if n.kind != 'branch':
                 continue
-            t = resolve(g, n, n.meta['test'])
+            t = resolve(g, n, unalias(g, n, n.meta['test']), keep=[self.event_var] if self.event_var else ())
             if not (isinstance(t, ast.Compare) and len(t.ops) == 1):
                 continue
             sides = [t.left, t.comparators[0]]
@@ -342,7 +361,7 @@ def takeover_paths(r: CacheRoles):
     stops = ([r.HEAD] if r.HEAD else [])
     waits = wait_awaits(r)
 
-    from ..paths import walk_env, decisions
+    from ..paths import walk_env, decisions, none_decisions
 
     def put(f: Dict[str, bool], a: str, v: bool) -> None:
         if a == 'missing':
@@ -356,12 +375,25 @@ def takeover_paths(r: CacheRoles):
         f: Dict[str, bool] = {}
         if found is not None:
             f['found'] = found
+        # a look-up variable that is re-assigned something else on the way (`marker = None` to
+        # invalidate a dead loop's entry) no longer speaks about the looked-up marker
+        detached: Set[str] = set()
         for e in path:
-            a = _atom(r, e.src, lv)
+            n = e.src
+            if n.kind == 'store_name' and n.meta['name'] in lv and e.label != 'exc':
+                v = n.meta.get('value')
+                mentions = v is not None and any(
+                    (isinstance(x, ast.Name) and (x.id == r.table or (x.id in lv and x.id not in detached))) for x in ast.walk(v))
+                if v is not None and not mentions:
+                    detached.add(n.meta['name'])
+                else:
+                    detached.discard(n.meta['name'])
+            a = _atom(r, n, lv - detached)
             if a and e.label in ('true', 'false'):
                 put(f, a, e.label == 'true')
         # boolean temporaries (`dead = loop.is_closed()` ... `if dead:`): what the path decided about them
-        for tok, val in decisions(walk_env(g, path)).items():
+        env_end = walk_env(g, path)
+        for tok, val in decisions(env_end).items():
             if tok[0] != 'v':
                 continue
             node = g.nodes[tok[1]]
@@ -371,6 +403,12 @@ def takeover_paths(r: CacheRoles):
             a = _atom_expr(v, lv) if v is not None else None
             if a:
                 put(f, a, val)
+        for tok, val in none_decisions(env_end).items():
+            if tok[0] != 'v':
+                continue
+            v = g.nodes[tok[1]].meta.get('value')
+            if v is not None and _is_table_read(r, v):
+                f['found'] = not val
         return f
     tm, tw = [], []
     for e, found in starts:
@@ -553,7 +591,7 @@ def c01(ctx: Ctx) -> None:
         pth = find_path(g, [g.entry], [m]) or []
         from ..sym import expand_inlined
         env = sym_env(g, pth)
-        sv = subst(expand_inlined(g, v), env) if v is not None else None
+        sv = simplify(subst(expand_inlined(g, v), env)) if v is not None else None
         ok = False
         why = 'marker is not a (loop, event) tuple'
         if isinstance(sv, ast.Tuple) and len(sv.elts) == 2:
@@ -565,8 +603,7 @@ def c01(ctx: Ctx) -> None:
                                           g.res.path(d.meta['value'].func) == 'asyncio.get_running_loop' for d in defs)
             ev_ok = isinstance(ev, ast.Call) and g.res.path(ev.func) == 'asyncio.Event'
             # the Event must be created after the decision (not reused from the looked-up marker)
-            ev_stores = [n for n in g.nodes if n.kind == 'store_name' and n.meta['name'] == r.event_var
-                         and isinstance(n.meta.get('value'), ast.Call)]
+            ev_stores = [n for n in g.nodes if n.kind == 'call' and g.res.path(n.ast.func) == 'asyncio.Event']
             fresh = any(find_path(g, [n], [m], edge_ok=lambda e: e.label != 'exc') is not None and r.locked(n) for n in ev_stores)
             ok = lp_ok and ev_ok and fresh
             why = f'loop element ok={lp_ok}, event element ok={ev_ok}, created under the lock on the way to MARK={fresh}'
@@ -595,6 +632,19 @@ def c01(ctx: Ctx) -> None:
                      for s in stores)
         elif isinstance(v, ast.Await) and any(c.ast is v for c in r.CALL):
             ok = True
+        elif v is not None:
+            # whatever the value travels through (locals, a result record of an inlined helper): on every
+            # path reaching this return it must denote a cache probe or the awaited call
+            def good(lf: ast.AST) -> bool:
+                if isinstance(lf, ast.Subscript) and isinstance(lf.value, ast.Name) and lf.value.id == r.cache:
+                    return True
+                if isinstance(lf, ast.Call) and isinstance(lf.func, ast.Attribute) and lf.func.attr == 'get' \
+                        and isinstance(lf.func.value, ast.Name) and lf.func.value.id == r.cache and len(lf.args) == 1:
+                    return False   # a defaulted probe may return the default
+                return isinstance(lf, ast.Await) and any(c.ast is lf for c in r.CALL)
+            envs = envs_at(g, n)
+            ok = bool(envs) and all(
+                (lambda ls: bool(ls) and all(good(x) for x in ls))(leaves(g, n, v, env=env)) for env in envs)
         ctx.check('C01-R8', f'return {norm(v) if v is not None else "None"}', _loc(g, n), ok,
                   detail_ok='returns a cache probe or the computed value',
                   detail_bad='a caller can receive something that is neither the cached nor the computed value',
@@ -629,10 +679,51 @@ def _wait_analysis(ctx: Ctx, r: CacheRoles):
     for w in waits:
         paths = enum_paths(g, [w], sources=[head], stop_at=r.CALL)
         for p in paths:
-            env = sym_env(g, p)
-            expr = subst(w.ast.value, env)  # type: ignore[union-attr]
+            env = sym_env(g, p, through_unpack=True)
+            expr = simplify(subst(w.ast.value, env))  # type: ignore[union-attr]
             results.append((w, p, expr))
     return results
+
+
+def _keyword(r: CacheRoles, c: ast.Call, name: str) -> Optional[ast.expr]:
+    """Keyword argument *name* of call *c*, also when it travels in a `**options` dict display that
+    is a local or a closure variable of the decorator."""
+    from ..match import closure_value
+    for k in c.keywords:
+        if k.arg == name:
+            return k.value
+        if k.arg is None:
+            v = k.value
+            if isinstance(v, ast.Name):
+                v = closure_value(r.wrapper, v.id) or v
+            if isinstance(v, ast.Dict):
+                for kk, vv in zip(v.keys, v.values):
+                    if isinstance(kk, ast.Constant) and kk.value == name:
+                        return vv
+            if isinstance(v, ast.Call) and isinstance(v.func, ast.Name) and v.func.id == 'dict':
+                for kk in v.keywords:
+                    if kk.arg == name:
+                        return kk.value
+    return None
+
+
+def _is_table_read(r: CacheRoles, x: ast.AST) -> bool:
+    if isinstance(x, ast.Subscript) and isinstance(x.value, ast.Name) and x.value.id == r.table:
+        return True
+    return isinstance(x, ast.Call) and isinstance(x.func, ast.Attribute) and x.func.attr == 'get' \
+        and isinstance(x.func.value, ast.Name) and x.func.value.id == r.table
+
+
+def _marker_part(r: CacheRoles, x: ast.AST, lv: Set[str]):
+    """0 / 1 if *x* is the loop / event element of a looked-up marker, 'any' if it is a name bound
+    from the look-up (legacy unpacked form), None otherwise."""
+    if isinstance(x, ast.Subscript) and isinstance(x.slice, ast.Constant) and isinstance(x.slice.value, int):
+        b = x.value
+        if _is_table_read(r, b) or (isinstance(b, ast.Name) and b.id in lv):
+            return x.slice.value
+    if isinstance(x, ast.Name) and x.id in lv:
+        return 'any'
+    return None
 
 
 def c05(ctx: Ctx) -> None:
@@ -648,6 +739,7 @@ def c05(ctx: Ctx) -> None:
     ctx.rule('C05-R5', 'the wait is wrapped in wait_for(_, T), 0 < T <= 60; its TimeoutError leads to the retry head', 1)
     ctx.rule('C05-R6', 'no path through the wait stage returns without passing the retry head', 1)
     ctx.rule('C05-R7', 'a closed or not-running marker loop always leads to take-over (never to waiting)', 1)
+    ctx.rule('C05-R8', 'the Event set at WAKE is the very Event stored in this activation\'s marker (waiters wait on what is set)', 1)
     if not _require_table(ctx, r, 'C05-R1'):
         _publish_roles(ctx, r)
         return
@@ -690,8 +782,7 @@ def c05(ctx: Ctx) -> None:
     shield_waits = []
     seen_inst = set()
     for w, p, expr in res:
-        waits_on_event = [c for c in method_calls(expr, 'wait')
-                          if isinstance(c.func.value, ast.Name) and c.func.value.id in lv]
+        waits_on_event = [c for c in method_calls(expr, 'wait') if _marker_part(r, c.func.value, lv) in (1, 'any')]
         if not waits_on_event:
             continue
         shield_waits.append(w)
@@ -701,14 +792,17 @@ def c05(ctx: Ctx) -> None:
             if e.src.kind == 'branch' and isinstance(e.src.meta['test'], ast.Compare):
                 t = e.src.meta['test']
                 names = {x.id for x in ast.walk(t) if isinstance(x, ast.Name)}
-                if len(t.ops) == 1 and isinstance(t.ops[0], (ast.Is, ast.IsNot)) and names & lv:
+                sides = [t.left] + list(t.comparators)
+                about_marker = bool(names & lv) or any(
+                    _marker_part(r, lf, lv) in (0, 'any') for sd in sides for lf in leaves(g, e.src, sd))
+                if len(t.ops) == 1 and isinstance(t.ops[0], (ast.Is, ast.IsNot)) and about_marker:
                     isnot = isinstance(t.ops[0], ast.IsNot)
                     foreign = (e.label == 'true') == isnot
         bridges = find_calls(g, expr, 'asyncio.run_coroutine_threadsafe')
         bridged = False
         for b in bridges:
             if len(b.args) >= 2 and any(c in list(ast.walk(b.args[0])) for c in waits_on_event) \
-                    and isinstance(b.args[1], ast.Name) and b.args[1].id in lv:
+                    and _marker_part(r, b.args[1], lv) in (0, 'any'):
                 wf = [c for c in find_calls(g, expr, 'asyncio.wrap_future') if b in list(ast.walk(c))]
                 bridged = bool(wf)
         key = (w.id, foreign, bridged)
@@ -728,7 +822,7 @@ def c05(ctx: Ctx) -> None:
         okT = False
         T = None
         for c in wfs:
-            targ = c.args[1] if len(c.args) > 1 else next((k.value for k in c.keywords if k.arg == 'timeout'), None)
+            targ = c.args[1] if len(c.args) > 1 else _keyword(r, c, 'timeout')
             if isinstance(targ, ast.Constant) and isinstance(targ.value, (int, float)) and not isinstance(targ.value, bool):
                 T = targ.value
                 okT = 0 < T <= 60 and any(x in list(ast.walk(c)) for x in waits_on_event)
@@ -794,6 +888,44 @@ def c05(ctx: Ctx) -> None:
     if not tw:
         ctx.violation('C05-R7', 'no decide-to-wait path', f'{FILE}:{r.wrapper.lineno}',
                       'every caller computes', construct=construct_key(r.wrapper.qualname, 'no wait path'))
+    # R8: identity of the event: symbolic value of the marker's event element at MARK and of the receiver of
+    # set() at WAKE along one feasible path entry -> MARK -> WAKE; both must be the same Event() creation site
+    from ..sym import expand_inlined
+
+    def creation_site(e: ast.AST):
+        if isinstance(e, ast.Call) and g.res.path(e.func) == 'asyncio.Event':
+            return (getattr(e, 'lineno', None), getattr(e, 'col_offset', None))
+        return None
+    for m in r.MARK:
+        p1 = find_path(g, [g.entry], [m])
+        if p1 is None:
+            continue
+        for w in r.WAKE:
+            p2 = find_path(g, [m], [w], edge_ok=lambda e: e.label != 'exc')
+            if p2 is None:
+                continue
+            full = p1 + p2
+            env_m = sym_env(g, p1, through_unpack=True)
+            sv = simplify(subst(expand_inlined(g, m.meta.get('value')), env_m)) if m.meta.get('value') is not None else None
+            stored = sv.elts[1] if isinstance(sv, ast.Tuple) and len(sv.elts) >= 2 else None
+            # environment when the WAKE node executes (stores of the path up to, not including, w)
+            env_w = sym_env(g, full + [e for e in g.succ[w.id]][:1], through_unpack=True)
+            recv = simplify(subst(w.ast.func.value, env_w))
+            a, b = creation_site(stored) if stored is not None else None, creation_site(recv)
+            if a is None or b is None:
+                # not reduced to a creation site on this path: compare the expressions themselves
+                ok8 = stored is not None and norm(stored) == norm(recv) and not isinstance(stored, ast.Call)
+                if not ok8:
+                    ctx.undecided('C05-R8', f'MARK {norm(sv) if sv is not None else None} vs WAKE receiver {norm(recv)}', _loc(g, w),
+                                  'event identity could not be reduced to a creation site')
+                    continue
+            else:
+                ok8 = a == b
+            ctx.check('C05-R8', f'marker event {norm(stored)}@{a} is what {norm(w.ast)} sets ({norm(recv)}@{b})', _loc(g, w), ok8,
+                      'waiters of this activation wait on the event that its clean-up sets',
+                      'the computing caller sets an Event other than the one it published in its marker: waiters are never '
+                      'woken and its ownership test never matches (the marker is never removed)',
+                      witness=render(g, full), construct=construct_key(r.wrapper.qualname, 'marker event identity'))
     _publish_roles(ctx, r)
 
 
